@@ -109,7 +109,7 @@ def c04(pid, tier, seed):
                         continue
                     inf = info.get(ev["id"].split("#")[0], {})
                     tags = [f"pos:{inf.get('position')}", f"cls:{inf.get('cls')}", cfg] + ([f"form:{inf.get('form')}"] if inf.get("form") else [])
-                    if inf.get("position") == "merge-holder" and inf.get("form") == "block-blank":
+                    if inf.get("position") == "merge-holder" and "block-blank" in (inf.get("forms") or [inf.get("form")]):
                         tags.append("blank-line-in-doc")      # two documented types merged into one file (known finding)
                     chk.add_distinct((inf.get("position"), inf.get("cls"), cfg))
                     if ev["result"] != "ok":
